@@ -260,16 +260,18 @@ def _boundary_rows(nas, c):
     return sum(1 for (i, d) in nas["uset"][dn[0]].index.tolist() if i in ids)
 
 
-def damage(rng, nas):
+DAMAGES = ["maps-scale", "maps-range", "maps-neg", "drop-dnid", "extra-dnid", "del-uset", "del-dnids", "del-maps",
+           "del-upids", "selist-drop", "upids-short", "maps-short", "maps-perm", "dup-dnid", "selist-dup"]
+
+
+def damage(rng, nas, what=None):
     """a copy with one inconsistency (for the correspondence only: error kinds and odd paths)"""
     n = {"selist": nas["selist"].copy(), "uset": dict(nas["uset"]),
          "dnids": {k: v.copy() for k, v in nas["dnids"].items()},
          "maps": {k: (v.copy() if isinstance(v, np.ndarray) else []) for k, v in nas["maps"].items()},
          "upids": {k: v.copy() for k, v in nas["upids"].items()}}
     ups = [int(s) for s in n["dnids"]]
-    what = rng.choice(["maps-scale", "maps-range", "maps-neg", "drop-dnid", "extra-dnid", "del-uset", "del-dnids",
-                       "del-maps", "del-upids", "selist-drop", "upids-short", "maps-short", "maps-perm", "dup-dnid",
-                       "selist-dup"])
+    what = what or rng.choice(DAMAGES)
     c = rng.choice(ups)
     if what == "maps-scale":
         m = n["maps"][c]
@@ -321,7 +323,7 @@ def damage(rng, nas):
         k = rng.choice(list(n["upids"]))
         if len(n["upids"][k]):
             n["upids"][k] = n["upids"][k][:-1]
-    return n, what
+    return n, what, c
 
 
 def serialize(nas):
